@@ -84,6 +84,7 @@ func genModes(t *rapid.T) kit.Modes {
 	}
 	// server in context-buffer mode (handlers that take a context get the request's buffer)
 	m.CtxBuf = rapid.IntRange(0, 2).Draw(t, "ctx_buf") == 0
+	kit.DrawBuffers(t, &m)
 	return m
 }
 
